@@ -2,21 +2,41 @@ import PetgraphModel.Common
 import PetgraphModel.GraphProto
 import PetgraphModel.Oracle.Reach
 import PetgraphModel.Oracle.C12Forest
+import PetgraphModel.Oracle.C12W4
 import PetgraphModel.Model.C12Mst
+import PetgraphModel.Model.C12W4
 /-
 C12 driver.  Requests (after a `graph …` line):
 
   kruskal <wt> fe=<k> er=<s:t:eid;…>     min_spanning_tree(g) collected
   prim <wt> fe=<k>                        min_spanning_tree_prim(g) collected
 
+and, without a graph line, the direct differential test of the heap mirror:
+
+  heap <kt> ops=<p<key>:<id>|o|c;…>       BinaryHeap<MinScored<kt, (usize, usize)>> script
+
 Answer: `<stream>|<fe nodes>|<fe edges>` (or `panic`): the element stream as `N<weight>` /
 `E<source>:<target>:<weight>` tokens, then the graph `from_elements` built from it (node weights in
 index order; edges in index order as `<weight of source>:<weight of target>:<w>`).  Node weight =
 abstract node id.
 
-Exact part: the whole stream against the mirror models (`Model/C12Mst.lean`, heap order included).
+Exact part: the whole stream against the mirror models (`Model/C12Mst.lean`, heap order included),
+and the collected graph against the `from_elements` models (`Model/C12W4.lean`: the C01 `Graph`
+model / the C02 `StableGraph` model run on the implementation's stream).
 Spec-level part (`Oracle/C12Forest.lean`): the clauses of the property statement against the
-abstract graph; Prim is judged on undirected graphs only (its documented domain).
+abstract graph.  Prim: on undirected graphs the property's clause (`judgePrimEdges`); on directed
+storage — outside the property's domain — what the iterator provably does there: a greedy out-tree
+of the nodes reachable from the first node (`Oracle/C12W4.lean`, `judgePrimDirected`).
+
+`heap` answer: one token per call, `;`-separated: push `=<vec>`, pop `<key>:<id>=<vec>` or
+`none=<vec>`, clear `c`; `<vec>` = the payload ids of the heap's internal vector (`.`-separated, `-`
+if empty).  Keys are integers, `nan`, `inf`, `-inf`.  Exact part: the heap mirror, vector included;
+spec-level part: the priority-queue specification `pqJudge`.
+
+Side conditions (hypotheses of the model theorems) are evaluated on every case:
+`SPECFAIL side condition <name> does not hold: …` = the encoding's trait impls do not describe one
+well-formed graph; `SPECFAIL generator left the proved range: …` = the generated input is outside
+the range the theorems cover (never fires on the unchanged tree).
 -/
 namespace PetgraphModel.C12
 open PetgraphModel PetgraphModel.MST PetgraphModel.MstModel PetgraphModel.Oracle
@@ -50,12 +70,17 @@ def pviewB (v : View) : Bool :=
     (v.outOf e.src).any (fun oe => oe.1 == e.tgt && v.weight oe.2 == e.w) &&
     (v.outOf e.tgt).any (fun oe => oe.1 == e.src && v.weight oe.2 == e.w))
 
-/-- the view is a well-formed description of the abstract graph (harness sanity, not petgraph).
-The first three conjuncts are the hypotheses of the model theorems (`Proofs/C12Driver.lean` links
-them); the rest are tighter multiset checks by edge id. -/
-def viewOkB (v : View) : Bool :=
+/-- on directed storage `g.edges(a)` lists exactly the stored out-edges of `a`, with their weights
+(`MstModel.DView`) -/
+def dviewB (v : View) : Bool :=
+  (v.g.nodes.all fun a => (v.outOf a).all fun oe =>
+    v.g.edges.any fun e => e.w == v.weight oe.2 && e.src == a && e.tgt == oe.1) &&
+  (v.g.edges.all fun e =>
+    (v.outOf e.src).any fun oe => oe.1 == e.tgt && v.weight oe.2 == e.w)
+
+/-- the tighter multiset checks by edge id -/
+def viewIdsB (v : View) : Bool :=
   let g := v.g
-  wfB g && kviewB v && (g.directed || pviewB v) &&
   (g.edges.map (·.id)).eraseDups.length == g.edges.length &&
   g.nodes.all (fun a => sameSet (v.succ a) (g.succ a)) &&
   -- `g.edges(a)` lists every edge at `a` exactly once (by edge id)
@@ -66,6 +91,22 @@ def viewOkB (v : View) : Bool :=
     match v.edge? oe.2 with
     | some e => (e.src == a && e.tgt == oe.1) || (!g.directed && e.tgt == a && e.src == oe.1)
     | none => false)
+
+/-- the first side condition of the view that fails, by name -/
+def viewFailure (v : View) : Option String :=
+  if !wfB v.g then some "well_formed does not hold: the nodes are not distinct or an edge ends outside the nodes"
+  else if !kviewB v then some "kview does not hold: to_index is not below node_bound or not injective on the nodes"
+  else if !(v.g.directed || pviewB v) then some "pview does not hold: edges(a) of the undirected encoding is not the set of edges at a with their weights"
+  else if !(!v.g.directed || dviewB v) then some "dview does not hold: edges(a) of the directed encoding is not the set of stored out-edges of a with their weights"
+  else if !viewIdsB v then some "view_ids does not hold: edge ids are not distinct or the out rows do not list each incident edge once"
+  else none
+
+/-- the view is a well-formed description of the abstract graph (harness sanity, not petgraph).
+The first four conjuncts are the hypotheses of the model theorems (`Proofs/C12Driver.lean` links
+them); the rest are tighter multiset checks by edge id. -/
+def viewOkB (v : View) : Bool :=
+  let g := v.g
+  wfB g && kviewB v && (g.directed || pviewB v) && (!g.directed || dviewB v) && viewIdsB v
 
 /-- `er` describes the graph's edges with their weights (`MstModel.ErOk`) -/
 def erOkPropB (v : View) (er : List (Nat × Nat × Nat)) : Bool :=
@@ -156,7 +197,7 @@ def judgeStream (g : MGraph) (prim : Bool) (ns : List Nat) (es : List EdgeEl) (f
     | some why => some why
     | none =>
       if prim then
-        if g.directed then none else judgePrimEdges g.nodes g.edges bruteBound S
+        if g.directed then judgePrimDirected g.nodes g.edges S else judgePrimEdges g.nodes g.edges bruteBound S
       else judgeForest g.nodes g.edges bruteBound S
 
 def verdict (spec : Option String) (model impl : String) : String :=
@@ -164,7 +205,14 @@ def verdict (spec : Option String) (model impl : String) : String :=
   | some why => s!"SPECFAIL {why}"
   | none => cmpExact model impl
 
-def answer (d : DState) (prim : Bool) (model : Res) (impl : String) : String :=
+def showFE : FERes → String
+  | .ok ns es =>
+    let e := if es.isEmpty then "-" else String.intercalate ";" (es.map fun e => s!"{e.1}:{e.2.1}:{e.2.2}")
+    s!"{showNats ns}|{e}"
+  | .panic => "panic|panic"
+  | .fault => "FAULT|FAULT"
+
+def answer (d : DState) (prim : Bool) (kind : String) (model : Res) (impl : String) : String :=
   if impl == "panic" then
     (match model with
       | .panic => "SPECFAIL the iterator panicked (the mirror model panics too)"
@@ -175,8 +223,82 @@ def answer (d : DState) (prim : Bool) (model : Res) (impl : String) : String :=
     let toks := if st == "-" then [] else (st.splitOn ",").map parseTok
     match splitStream toks with
     | none => s!"SPECFAIL the stream is not node elements followed by edge elements: {st}"
-    | some (ns, es) => verdict (judgeStream d.v.g prim ns es feN feE) (showRes model) st
+    | some (ns, es) =>
+      match judgeStream d.v.g prim ns es feN feE with
+      | some why => s!"SPECFAIL {why}"
+      | none =>
+        -- hypothesis of the `from_elements` theorems (the positions were judged above)
+        if !feFitsB u32max ns es then
+          s!"SPECFAIL generator left the proved range: a stream of {ns.length} node and {es.length} edge elements does not fit the index type"
+        else
+          -- exact part: the stream against the MST mirror, the collected graph against the
+          -- `from_elements` model run on the implementation's own stream
+          cmpExact s!"{showRes model}|{showFE (collect kind ns es)}" impl
   | _ => s!"SPECFAIL malformed answer {impl}"
+
+/-! ### heap scripts -/
+
+def parseKey (s : String) : Option SP.Score :=
+  if s == "nan" then some .nan
+  else if s == "inf" then some .pinf
+  else if s == "-inf" then some .ninf
+  else s.toInt?.map .fin
+
+def showKey (k : Int) : String :=
+  if k == bigKey + 1 then "nan" else if k == bigKey then "inf" else if k == -bigKey then "-inf" else toString k
+
+def parseLay (s : String) : List Nat :=
+  if s == "-" then [] else (s.splitOn ".").filterMap (·.toNat?)
+
+def showLay (l : List Nat) : String :=
+  if l.isEmpty then "-" else String.intercalate "." (l.map toString)
+
+/-- `p<key>:<id>` / `o` / `c`; `none` = malformed, `some (Sum.inl k)` = key outside the proved range -/
+def parseHOp (s : String) : Option (SP.Score ⊕ HOp) :=
+  if s == "o" then some (.inr .pop)
+  else if s == "c" then some (.inr .clear)
+  else if s.startsWith "p" then
+    match (s.drop 1).toString.splitOn ":" with
+    | [k, i] => match parseKey k, i.toNat? with
+      | some k, some i => if scoreInRangeB k then some (.inr (.push ⟨scoreKey k, i, 0⟩)) else some (.inl k)
+      | _, _ => none
+    | _ => none
+  else none
+
+def parseHAns (s : String) : HAns :=
+  if s == "c" then .cleared
+  else match s.splitOn "=" with
+    | ["", lay] => .pushed (parseLay lay)
+    | ["none", lay] => .popped none (parseLay lay)
+    | [it, lay] => match it.splitOn ":" with
+      | [k, i] => match parseKey k, i.toNat? with
+        | some k, some i => if scoreInRangeB k then .popped (some ⟨scoreKey k, i, 0⟩) (parseLay lay) else .bad s
+        | _, _ => .bad s
+      | _ => .bad s
+    | _ => .bad s
+
+def showHAns : HAns → String
+  | .pushed lay => s!"={showLay lay}"
+  | .popped none lay => s!"none={showLay lay}"
+  | .popped (some x) lay => s!"{showKey x.w}:{x.a}={showLay lay}"
+  | .cleared => "c"
+  | .bad s => s!"BAD({s})"
+
+def heapAnswer (opsField impl : String) : String :=
+  let toks := if opsField == "-" then [] else opsField.splitOn ";"
+  let parsed := toks.map parseHOp
+  if parsed.any (·.isNone) then s!"SPECFAIL bad request: malformed heap script {opsField}" else
+  match parsed.findSome? (fun p => match p with | some (.inl k) => some k | _ => none) with
+  | some _ => "SPECFAIL generator left the proved range: a heap key is not between -10^30 and 10^30"
+  | none =>
+    let ops := parsed.filterMap fun p => match p with | some (.inr op) => some op | _ => none
+    if impl == "panic" then "SPECFAIL the heap script panicked" else
+    let ans := if impl == "-" then [] else (impl.splitOn ";").map parseHAns
+    match pqJudgeAll [] ops ans with
+    | some why => s!"SPECFAIL BinaryHeap<MinScored> is not a priority queue: {why}"
+    | none =>
+      let m := heapRun [] ops
+      cmpExact (if m.isEmpty then "-" else String.intercalate ";" (m.map showHAns)) impl
 
 def step (d : DState) (req : List String) (impl : String) : DState × String :=
   match req with
@@ -185,16 +307,19 @@ def step (d : DState) (req : List String) (impl : String) : DState × String :=
     match parseView req with
     | none => (d, "SPECFAIL unparsable graph line")
     | some v =>
-      if viewOkB v then ({ v := v, ok := true }, "ok")
-      else ({ v := v, ok := false }, "SPECFAIL the view line does not describe a well-formed abstract graph")
+      match viewFailure v with
+      | none => ({ v := v, ok := true }, "ok")
+      | some why => ({ v := v, ok := false }, s!"SPECFAIL side condition {why}")
   | "kruskal" :: _ =>
     if !d.ok then (d, "SPECFAIL no valid graph line") else
     let er := parseEr ((field? req "er").getD "-")
-    if !erOkB d.v er then (d, "SPECFAIL edge_references of this encoding do not describe the abstract graph") else
-    (d, answer d false (kruskal d.v er) impl)
+    if !erOkB d.v er then
+      (d, "SPECFAIL side condition edge_references does not hold: edge_references of this encoding do not describe the abstract graph") else
+    (d, answer d false ((field? req "fe").getD "g") (kruskal d.v er) impl)
   | "prim" :: _ =>
     if !d.ok then (d, "SPECFAIL no valid graph line") else
-    (d, answer d true (prim d.v) impl)
+    (d, answer d true ((field? req "fe").getD "g") (prim d.v) impl)
+  | "heap" :: _ => (d, heapAnswer ((field? req "ops").getD "-") impl)
   | _ => (d, s!"SPECFAIL bad request {req}")
 
 end PetgraphModel.C12
